@@ -373,6 +373,11 @@ pub fn stats_from_json(v: &Value, hashes: &[u8]) -> Stats {
 }
 
 fn workdir(cfg: &Cfg) -> std::path::PathBuf {
+    if cfg!(debug_assertions) {
+        let d = cfg.verif.join("target").join("c01-work-dbg");
+        let _ = std::fs::create_dir_all(&d);
+        return d;
+    }
     let d = cfg.verif.join("target").join("c01");
     let _ = std::fs::create_dir_all(&d);
     d
@@ -828,7 +833,8 @@ fn confirm_one(cfg: &Cfg, b: &[u8], total: &mut Stats, inconclusive: &mut Vec<St
     }
 }
 
-pub fn run(cfg: &Cfg) -> Stats {
+/// everything for the build this binary is (release without / with debug assertions)
+pub fn run_own(cfg: &Cfg) -> Stats {
     let d = workdir(cfg);
     let kk: u64 = 16;
     for k in 0..kk {
@@ -960,7 +966,88 @@ pub fn run(cfg: &Cfg) -> Stats {
     total
 }
 
+/// child mode of the debug-assertions build: run everything, print the statistics as one line
+pub fn child_mode(cfg: &Cfg) -> i32 {
+    let st = run_own(cfg);
+    println!("STATS {}", stats_to_json(&st));
+    0
+}
+
+pub const DBG_TAG: &str = "debug-assertions-build";
+
+/// The main build has debug assertions and `debug_assert!` compiled out (overflow checks are on);
+/// users' debug builds do not. The same source is therefore built once more with
+/// `-C debug-assertions=on` (VERIF_BIN_DBG, built by ./check) and the whole totality run is
+/// repeated there; its failures carry the tag in their signature and case.
+pub fn run(cfg: &Cfg) -> Stats {
+    let mut total = run_own(cfg);
+    if cfg!(debug_assertions) {
+        return total;
+    }
+    let Ok(bin) = std::env::var("VERIF_BIN_DBG") else {
+        total.oracle_error("VERIF_BIN_DBG is not set (the debug-assertions build of the harness is needed; ./check builds it)".into());
+        return total;
+    };
+    let out = Command::new(&bin).args(["C01", "--config-child", cfg.tier_name()]).env("VERIF_SEED", (cfg.seed as i64).to_string()).stderr(Stdio::null()).output();
+    let parsed = out.ok().and_then(|o| {
+        let text = String::from_utf8_lossy(&o.stdout).to_string();
+        let line = text.lines().rev().find(|l| l.starts_with("STATS "))?.to_string();
+        serde_json::from_str::<Value>(&line[6..]).ok()
+    });
+    match parsed {
+        None => total.oracle_error(format!("the debug-assertions build ({bin}) printed no statistics")),
+        Some(v) => {
+            let mut o = stats_from_json(&v, &[]);
+            // same inputs under another build: evaluations, classes and failures are merged,
+            // non-trivial counts only reported
+            let nt = o.nt_enum;
+            o.nt_enum = 0;
+            o.samples.clear();
+            let classes = std::mem::take(&mut o.classes);
+            for (k, n) in classes {
+                o.classes.insert(format!("{DBG_TAG}: {k}"), n);
+            }
+            let fails = std::mem::take(&mut o.failures);
+            let counts = std::mem::take(&mut o.fail_counts);
+            for (sig, mut f) in fails {
+                let nsig = format!("{DBG_TAG}:{sig}");
+                f.sig = nsig.clone();
+                if f.case.is_object() {
+                    f.case["build"] = json!(DBG_TAG);
+                }
+                o.failures.insert(nsig, f);
+            }
+            for (sig, n) in counts {
+                o.fail_counts.insert(format!("{DBG_TAG}:{sig}"), n);
+            }
+            total.extra.insert("debug_assertions_build".into(), json!({"evaluations": o.evals, "nontrivial_counted_separately": nt}));
+            total = total.merge(o);
+        }
+    }
+    total
+}
+
 pub fn replay(case: &Value, st: &mut Stats) {
+    if case.get("build").and_then(|k| k.as_str()) == Some(DBG_TAG) && !cfg!(debug_assertions) {
+        // the case belongs to the debug-assertions build
+        if let Ok(bin) = std::env::var("VERIF_BIN_DBG") {
+            let tmp = std::env::temp_dir().join(format!("c01-replay-{}-{}.json", std::process::id(), hash_str(&case.to_string())));
+            let mut c = case.clone();
+            c.as_object_mut().map(|o| o.remove("build"));
+            let _ = std::fs::write(&tmp, json!({"case": c}).to_string());
+            if let Ok(out) = Command::new(bin).args(["C01", "--replay", &tmp.display().to_string()]).output() {
+                let text = String::from_utf8_lossy(&out.stdout).to_string();
+                if out.status.code() == Some(1) {
+                    let detail: String = text.lines().filter_map(|l| l.trim().strip_prefix("detail: ")).collect::<Vec<_>>().join(" / ");
+                    for sig in text.lines().filter_map(|l| l.trim().strip_prefix("signature: ")) {
+                        st.fail(format!("{DBG_TAG}:{sig}"), case.clone(), case_bytes(case).map_or(0, |b| b.len()), format!("in the build with debug assertions on: {detail}"));
+                    }
+                }
+            }
+            let _ = std::fs::remove_file(&tmp);
+        }
+        return;
+    }
     if case.get("kind").and_then(|k| k.as_str()) == Some("long") {
         let i = case["which"].as_u64().unwrap_or(0);
         let (how, lines) = run_limited(&["C01".into(), "--long".into(), "quick".into(), i.to_string()], 0, Duration::from_secs(60));
